@@ -381,7 +381,7 @@ impl Prop for C09WorkerCounts {
             .boxed()
     }
     fn cases(&self, tier: Tier) -> u32 {
-        tier.pick(5_600, 140_000)
+        tier.pick(5_600, 60_000)
     }
     fn test(&self, c: &CountsCase, st: &mut Stats) -> TestResult {
         let mut pos = Pos::from_fen(&c.fen).map_err(Failure::new)?;
